@@ -11,6 +11,7 @@ Tier B:      for every line class of every format version, lines harvested from 
 """
 import itertools
 import os
+import numpy as np
 import re
 from fractions import Fraction
 
@@ -141,7 +142,10 @@ def _harvest():
             ("1.0.0", "snote(n6,[D,#],5,2:1,0,1/4+1/1/3,4.0000,5.3333,[v1,staff1])-note(n6,75,480,960,64,0,0)."),
             ("1.0.0", "snote(n7,[E,b],3,2:2,1/8,1/1/5,5.5000,5.7000,[v2,staff2])-deletion."),
             ("0.5.0", "snote(n5,[c,n],4,1:1,1/1/3,2/1/3,0.3333,1.0,[s])-deletion."),
-            ("0.3.0", "snote(n5,[c,n],4,1:1,1/1/3,2/1/3,0.3333,1.0,[s])-deletion.")]
+            ("0.3.0", "snote(n5,[c,n],4,1:1,1/1/3,2/1/3,0.3333,1.0,[s])-deletion."),
+            # performed notes of the oldest versions carry tick times with two decimals: fractions on both sides of one half
+            ("0.1.0", "note(1,[c,n],6,39060.60,39890.40,38)."), ("0.1.0", "note(6,[c,n],5,48840.50,49870.99,26)."),
+            ("0.2.0", "note(17,[c,n],5,72600.75,75380.25,75390.50,26)."), ("0.1.0", "note(85,[b,b],3,162600.49,164950.51,27).")]
     return out
 
 
@@ -263,7 +267,11 @@ def _bounded(b):
                 for f in ("Onset", "Offset", "Velocity", "MidiPitch", "Time", "Value", "NoteName", "Octave", "Measure", "Beat", "Anchor", "Id", "Modifier", "Duration"):
                     if hasattr(obj, f) and hasattr(up, f):
                         x, y = getattr(obj, f), getattr(up, f)
-                        if str(x) != str(y) and not (isinstance(x, float) and abs(x - float(y)) < 1e-9):
+                        if f in ("Onset", "Offset") and isinstance(x, float) and isinstance(y, (int, np.integer)):
+                            # two-decimal tick times become whole ticks: the nearest one
+                            if abs(x - int(y)) > 0.5 + 1e-9:
+                                good, why = False, "field %s: tick time %r became %r after upgrading (not the nearest tick)" % (f, x, y)
+                        elif str(x) != str(y) and not (isinstance(x, float) and abs(x - float(y)) < 1e-9):
                             good, why = False, "field %s: %r became %r after upgrading" % (f, x, y)
                 base_kind = lambda c: re.sub(r"^Match", "", c).replace("Meta", "ScoreProp")
                 b.case("upgrade/to_v1_keeps_kind_and_musical_content", good, case, why, nontrivial=nontriv, key=repr(key))
@@ -284,6 +292,20 @@ def _bounded(b):
                             s3 = "<%s>" % type(e).__name__
                         b.case("upgrade/upgraded_line_reads_back_as_written", s3 == su and type(obj3) is type(up), case,
                                "upgraded line %r is written as %r after reading it back" % (su[:120], s3[:120]), nontrivial=nontriv, key=repr(key))
+            # a line object written once, then edited, writes its NEW field values (no stale text): compared with a freshly parsed twin
+            if "Velocity" in getattr(obj, "field_names", ()) or "Onset" in getattr(obj, "field_names", ()):
+                fld = "Velocity" if "Velocity" in obj.field_names else "Onset"
+                try:
+                    twin = parse_matchline(s1, methods, ver)
+                    _ = obj2.matchline
+                    newv = (getattr(obj2, fld) or 0) + 1
+                    setattr(obj2, fld, newv)
+                    setattr(twin, fld, newv)
+                    b.case("line/text_follows_the_fields_after_an_edit", obj2.matchline == twin.matchline, case,
+                           "after writing, setting %s=%r and writing again the text is %r; a fresh object with that field writes %r" % (fld, newv, obj2.matchline[:100], twin.matchline[:100]),
+                           nontrivial=nontriv, key=repr(key))
+                except Exception:
+                    pass
             # type-driven mutations
             for fn in obj.field_names:
                 v0_ = getattr(obj, fn, None)
